@@ -420,6 +420,23 @@ def _wrap_case(case, rng, seed, encs):
             clf = SklearnClassifier(make(), classes=_declared(enc, case["decl"]),
                                     missing_label=ENCODINGS[enc]["missing"], cost_matrix=_cost_arg(case),
                                     random_state=seed)
+            lab_ids = [c for c in cls_ids if c is not None]
+            past = int(rng.integers(3)) if (how == "fit" and lab_ids) else 0
+            if past:
+                # the object has a past: it was fitted on the same points with OTHER classes observed (1: the class
+                # ids mirrored, 2: one single class) and asked for probabilities and decisions - whatever it derived
+                # from that model (class positions of the wrapped estimator's columns, ...) must not survive the fit
+                past_ids = [None if c is None else (K - 1 - c if past == 1 else (lab_ids[0] + 1) % K) for c in cls_ids]
+                try:
+                    with warnings.catch_warnings():
+                        warnings.simplefilter("ignore")
+                        clf.fit(X, _y_array(enc, past_ids))
+                        clf.predict_proba(Xq_num)
+                        clf.predict(Xq_num)
+                    tr["concrete"]["fitted_and_queried_before_on"] = {"y": _y_array(enc, past_ids).tolist(),
+                                                                       "then": "predict_proba(X_query), predict(X_query)"}
+                except Exception:
+                    pass
             ok, _ = _call(tr, how, lambda: getattr(clf, how)(X, y, sample_weight=w))
             n_eval += 1
             if not ok:
